@@ -202,6 +202,10 @@ def run_doc_check(prop, tier, seed, driver_ok, *, n_quick, n_thorough, profiles,
     compared = 0
     hyp = {}
     heur_stats = None
+    for r in usable:
+        # hypotheses of interest the property module counted itself
+        for k, v in (r.get("hyp") or {}).items():
+            hyp[k] = hyp.get(k, 0) + bool(v)
     if driver_ok:
         # heuristic / mixed batches against Adeu.Doc.applyEdits (results carry a "heur" entry: edits + recorded run)
         from . import heur
